@@ -2124,6 +2124,18 @@ class Interp(object):
         if isinstance(r, (list, tuple)) and isinstance(l, int) and \
                 op is ast.Mult:
             return r * l
+        if op is ast.Mult and (
+                (isinstance(l, (list, tuple)) and isinstance(r, Rat)) or
+                (isinstance(r, (list, tuple)) and isinstance(l, Rat))):
+            # sequence times a number: repetition for an integer, TypeError
+            # for any other real number (Python semantics, a Rat constant
+            # with integral value standing for the int)
+            seq, num = (l, r) if isinstance(l, (list, tuple)) else (r, l)
+            if num.is_const():
+                c = num.constant()
+                if c.denominator == 1:
+                    return seq * int(c)
+                raise PyRaise('TypeError')
         if isinstance(l, str) and op is ast.Mod:
             return l
         if isinstance(l, str) and isinstance(r, str) and op is ast.Add:
